@@ -264,6 +264,9 @@ func (c *Ctx) sym(fr *Frame, call *ast.CallExpr, ce *Callee, args []Value) (stri
 		case "isCloseable":
 			return "iscloseable", false
 		}
+		if c.isGate(m) {
+			return "gate", true
+		}
 	}
 	if ce.Builtin == "close" && len(call.Args) == 1 {
 		switch selField(info, call.Args[0]) {
@@ -402,6 +405,8 @@ func (c *Ctx) classifier(atomic map[string]bool, drop map[string]bool) func(fr *
 			ev.Results = tok("popped")
 		case "wgcdone":
 			ev.Results = tok("last")
+		case "gate":
+			ev.Results = tok("gate")
 		}
 		return ev
 	}
@@ -417,6 +422,36 @@ func binOp(e ast.Expr) (*ast.BinaryExpr, token.Token) {
 		return be, be.Op
 	}
 	return nil, token.ILLEGAL
+}
+
+// isGate: the named job method moves the status to Processing with a
+// compare-and-swap and reports whether it won (the atomic form of "skip the
+// job if it was closed, else mark it processing").
+func (c *Ctx) isGate(name string) bool {
+	if c.cache == nil {
+		c.cache = map[string]any{}
+	}
+	if v, ok := c.cache["gate:"+name]; ok {
+		return v.(bool)
+	}
+	res := false
+	if f := c.methodOf(c.R.JobT, name); f != nil && f.Obj.Type().(*types.Signature).Results().Len() == 1 {
+		procVal := c.jobStatus().ByName["Processing"]
+		ast.Inspect(f.Body, func(n ast.Node) bool {
+			call, ok := n.(*ast.CallExpr)
+			if !ok {
+				return true
+			}
+			if fk, m := atomicOp(f.Info(), call); fk == c.R.FJobStatus && m == "CompareAndSwap" && len(call.Args) == 2 {
+				if tv := f.Info().Types[call.Args[1]]; tv.Value != nil && tv.Value.ExactString() == procVal {
+					res = true
+				}
+			}
+			return true
+		})
+	}
+	c.cache["gate:"+name] = res
+	return res
 }
 
 func coarse(sym string) string {
@@ -469,7 +504,7 @@ func (c *Ctx) emits(f *Func) map[string]bool {
 				}
 				var targets []*Func
 				if ce.Iface {
-					targets = c.P.implementations(ce)
+					targets = c.P.implementationsIn(g, ce)
 				} else if t := c.P.byObj[ce.Key]; t != nil && t.Lib {
 					targets = []*Func{t}
 				}
@@ -520,8 +555,10 @@ func (v *vocab) classify(fr *Frame, call *ast.CallExpr, ce *Callee, args []Value
 	}
 	if !v.wants(ev.Name) {
 		if ev.Atomic {
-			// an irrelevant primitive: nothing to record, nothing inside
-			if _, forced := v.atomic[ev.Name]; forced {
+			// an irrelevant primitive: nothing to record, nothing inside; its
+			// result tokens are still produced so that later conditions on
+			// them can be recognised
+			if _, forced := v.atomic[ev.Name]; forced || ev.Results != nil {
 				return &callEvent{Atomic: true, Results: ev.Results}
 			}
 		}
